@@ -66,7 +66,9 @@ def gen_net(rng):
     chunk = 'whole' if r < 0.35 else 'few' if r < 0.7 else 'crlf' if r < 0.95 else 'bytes'
     # short_send only matters to code that calls socket.send() (sendall() loops by itself)
     return {'chunk': chunk, 'latency': rng.choice(('const', 'uniform', 'heavy', 'heavy', 'outage')),
-            'short_send': rng.choice((0.0, 0.0, 0.3, 0.8))}
+            'short_send': rng.choice((0.0, 0.0, 0.3, 0.8)),
+            # a connection closed with unread data is reset (TCP), not closed gracefully
+            'rst': rng.random() < 0.5}
 
 
 def gen_sched(rng, info, force=None):
